@@ -420,7 +420,11 @@ Definition close_one (h : hub) (sid : N) : hub * list out :=
   | Some s =>
       let room := s.(s_room) in
       let '(h1, outs1) := leave_room h sid true in
-      let '(h2, outs2) := release_mcu h1 sid in
+      let '(h2a, outs2a) := release_mcu h1 sid in
+      (* creations still running at the media server are abandoned (the session's context is cancelled) *)
+      let mine := filter (fun e => N.eqb (snd e).(mp_owner) sid) h2a.(h_mcupending) in
+      let h2 := set_mcu h2a h2a.(h_mcutok) (filter (fun e => negb (N.eqb (snd e).(mp_owner) sid)) h2a.(h_mcupending)) h2a.(h_mcuopen) in
+      let outs2 := outs2a ++ map (fun e => ToMcu (MFailed (fst e))) mine in
       let h3 := set_sessions h2 (adel h2.(h_sessions) sid) in
       let h4 := set_clients h3 (nrem sid h3.(h_clients)) in
       let h5 := set_expired h4 (nrem sid h4.(h_expired)) in
@@ -1122,9 +1126,12 @@ Definition do_mcudone (h : hub) (tok : N) (ok : bool) : hub * list out :=
 
 Definition do_media (h : hub) (c sid : N) (s : session) (to : recipient) (mk stream media : N) : hub * list out :=
   match to with
-  | RSession (IdPub n) =>
+  | RSession i =>
+      (* the session the message names; 0 when the string is not the id of a live session *)
+      let n := match i with IdPub x => match get_sess h x with Some _ => x | None => 0 end | _ => 0 end in
+      let is_self := match i with IdPub x => N.eqb x sid | _ => false end in
       if N.eqb mk 0 then
-        (* offer: create or update the publisher of the stream, answer comes back *)
+        (* offer: create or update the publisher of the stream (the recipient is not looked at) *)
         if negb (offer_allowed s.(s_perms) stream media) then (h, [ToConn c (SError E_not_allowed)])
         else
           let mt := if N.eqb stream 2 then 4 else N.land media 3 in
@@ -1136,7 +1143,7 @@ Definition do_media (h : hub) (c sid : N) (s : session) (to : recipient) (mk str
           end
       else if N.eqb mk 1 then
         (* requestoffer *)
-        if N.eqb n sid then (h, [])
+        if is_self then (h, [])
         else if negb (same_call h sid s n) then (h, [ToConn c (SError E_not_allowed)])
         else match sub_get s n stream with
              | Some _ => send_session h sid (SMedia 2 n)
@@ -1144,7 +1151,7 @@ Definition do_media (h : hub) (c sid : N) (s : session) (to : recipient) (mk str
              end
       else if N.eqb mk 2 then
         (* candidate *)
-        if N.eqb n sid then
+        if is_self then
           if negb (send_allowed s.(s_perms) stream) then (h, [ToConn c (SError E_not_allowed)])
           else match aget s.(s_pubs) stream with
                | Some _ => (h, [])
